@@ -31,11 +31,17 @@ type cop struct {
 	reput bool
 	// bytes > 0 (put only): a bitmap of at most that many bytes (as close to it as two-byte steps allow)
 	bytes int
+	// runs (with bytes > 0): the bitmap is made of run containers (long ranges), whose in-memory size is about twice
+	// their serialised size
+	runs bool
 }
 
 func (o cop) String() string {
 	if o.reput {
 		return fmt.Sprintf("R%d.%d", o.key, o.size)
+	}
+	if o.put && o.bytes > 0 && o.runs {
+		return fmt.Sprintf("U%d.%d", o.key, o.bytes)
 	}
 	if o.put && o.bytes > 0 {
 		return fmt.Sprintf("B%d.%d", o.key, o.bytes)
@@ -111,6 +117,43 @@ func mkbmBytes(target int, id uint32) *roaring.Bitmap {
 	return bm
 }
 
+var bmRunsBase sync.Map // byte target -> *roaring.Bitmap made of run containers (without the id)
+
+// mkbmRuns is mkbmBytes with one long range per container (run containers after RunOptimize): GetSizeInBytes, which
+// the byte bound is stated in, is about twice GetSerializedSizeInBytes for such bitmaps.
+func mkbmRuns(target int, id uint32) *roaring.Bitmap {
+	b, ok := bmRunsBase.Load(target)
+	if !ok {
+		bm := roaring.New()
+		for c := uint64(0); c < 20000; c++ {
+			nb := bm.Clone()
+			nb.AddRange(c<<16+10, c<<16+5000)
+			nb.RunOptimize()
+			if nb.GetSizeInBytes()+16 > uint64(target) {
+				break
+			}
+			bm = nb
+			if c > 64 {
+				// beyond a few dozen containers, grow in bigger steps
+				for k := 0; k < 8; k++ {
+					c++
+					nb = bm.Clone()
+					nb.AddRange(c<<16+10, c<<16+5000)
+					nb.RunOptimize()
+					if nb.GetSizeInBytes()+16 > uint64(target) {
+						break
+					}
+					bm = nb
+				}
+			}
+		}
+		b, _ = bmRunsBase.LoadOrStore(target, bm)
+	}
+	bm := b.(*roaring.Bitmap).Clone()
+	bm.Add(idBase + id)
+	return bm
+}
+
 // opFact is what one operation shows at the interface while the sequence runs.
 type opFact struct {
 	hit  bool   // Get: it was a hit
@@ -167,7 +210,11 @@ func lruRunFacts(capacity uint64, ops []cop, keys []uint64) (o lruObs, facts []o
 			}
 			bm := mkbm(class, uint32(i))
 			if op.bytes > 0 && !op.reput {
-				bm = mkbmBytes(op.bytes, uint32(i))
+				if op.runs {
+					bm = mkbmRuns(op.bytes, uint32(i))
+				} else {
+					bm = mkbmBytes(op.bytes, uint32(i))
+				}
 			}
 			c.Put(op.key, bm)
 			o.putSize = bm.GetSizeInBytes()
@@ -373,7 +420,7 @@ func runC07(r *vf.Run) {
 		"exhaustive part: all sequences over 3 keys x {Get, Put of 3 size classes} plus the re-Put of the same object after the caller grew it (15 symbols) up to the stated length for 5 capacities (DFS, every node is a prefix); " +
 		"random part: sequences up to length 300 over <= 12 keys, sizes 8 B .. 4x capacity; long part: crafted families (n resident entries then one displacing Put, n up to 513/4097; bursts of 0..300/2100 Get hits between two Puts) and random Get-heavy sequences up to 4300 operations over <= 151 keys, laws checked at the listed positions (two replays each); distinct_nontrivial = distinct (capacity, sequence) nodes with >= 2 operations")
 	r.Assume("per-entry bookkeeping allowance of 256 bytes for 'fits' (the implementation's is 64 bytes)", "bitmaps are not mutated by the caller after Put")
-	keys := []uint64{1, 2, 3}
+	keys := []uint64{0, 1, 1<<64 - 1} // which three keys does not matter to a correct cache; 0 and the largest key are where sentinels live
 	var syms []cop
 	for _, k := range keys {
 		syms = append(syms, cop{key: k})
@@ -465,7 +512,7 @@ func runC07(r *vf.Run) {
 		var capacity uint64
 		var seq []cop
 		rk := []uint64{1, 2, 3, 4, 5, 6, 7, 8, 9, 10, 11, 12}
-		if rng.Intn(4) == 0 {
+		if rng.Intn(2) == 0 {
 			rk = []uint64{0, 1, 1<<64 - 1, 1 << 63, 1<<32 - 1, 1 << 32, 0xFFFFFFFF00000000, 2, 3, 4, 5, 6} // extreme keys
 		}
 		if id == "regress-overwrite" {
@@ -530,17 +577,37 @@ func runC07(r *vf.Run) {
 		for bi, big := range []int{int(capacity) - 200, int(capacity) / 2, int(capacity) * 2, int(capacity) - 200 - entry} {
 			var seq []cop
 			var ks []uint64
-			for k := 1; k <= n; k++ {
-				seq = append(seq, cop{put: true, key: uint64(k), bytes: entry})
+			for k := 0; k < n; k++ {
+				seq = append(seq, cop{put: true, key: uint64(k), bytes: entry, runs: (k+bi)%3 == 0})
 				ks = append(ks, uint64(k))
 			}
 			if bi%2 == 1 {
-				seq = append(seq, cop{key: 1}, cop{key: uint64(n)}) // hits in between
+				seq = append(seq, cop{key: 0}, cop{key: uint64(n - 1)}) // hits in between
 			}
 			at := len(seq)
-			seq = append(seq, cop{put: true, key: uint64(n + 1), bytes: big}, cop{put: true, key: uint64(n + 2), bytes: entry}, cop{key: uint64(n + 1)}, cop{put: true, key: 1, bytes: entry})
+			seq = append(seq, cop{put: true, key: uint64(n + 1), bytes: big, runs: bi == 1}, cop{put: true, key: uint64(n + 2), bytes: entry}, cop{key: uint64(n + 1)}, cop{put: true, key: 0, bytes: entry})
 			ks = append(ks, uint64(n+1), uint64(n+2))
 			addLong(fmt.Sprintf("long/displace/n%d/b%d", n, bi), longCase{capacity, seq, ks, []int{at, at + 1, at + 2, at + 4}, "one Put displacing many entries"})
+		}
+	}
+	// (1b) entries made of run containers only, a handful resident, many stored: the bound is in in-memory bytes
+	for _, fit := range []int{1, 2, 3, 5, 8} {
+		for _, sz := range []int{400, 2000, 12000} {
+			capacity := uint64(fit) * uint64(sz+lruSlack)
+			var seq []cop
+			var ks []uint64
+			var pos []int
+			for k := 0; k < 3*fit+4; k++ {
+				seq = append(seq, cop{put: true, key: uint64(k % (2*fit + 3)), bytes: sz, runs: true})
+				pos = append(pos, len(seq))
+				if k%3 == 2 {
+					seq = append(seq, cop{key: uint64(k % (2*fit + 3))})
+				}
+			}
+			for k := 0; k < 2*fit+3; k++ {
+				ks = append(ks, uint64(k))
+			}
+			addLong(fmt.Sprintf("long/runs/fit%d/sz%d", fit, sz), longCase{capacity, seq, ks, pos, "entries made of run containers"})
 		}
 	}
 	// (2) bursts of Get hits between two Puts, then the Get that decides the victim
@@ -581,7 +648,7 @@ func runC07(r *vf.Run) {
 		n := 300 + rng.Intn(r.Pick(1500, 4000))
 		var seq []cop
 		var ks []uint64
-		for k := 1; k <= nk; k++ {
+		for k := 0; k < nk; k++ {
 			ks = append(ks, uint64(k))
 		}
 		var puts, gets []int
@@ -601,7 +668,7 @@ func runC07(r *vf.Run) {
 			case 2:
 				b = 20 + rng.Intn(entry/2)
 			}
-			seq = append(seq, cop{put: true, key: k, bytes: b})
+			seq = append(seq, cop{put: true, key: k, bytes: b, runs: rng.Intn(4) == 0})
 			puts = append(puts, len(seq))
 		}
 		var pos []int
@@ -622,7 +689,7 @@ func runC07(r *vf.Run) {
 				s = s[:2000] + " … " + s[len(s)-1500:]
 			}
 			r.Violation(id, "law", map[string]any{"capacity": c.capacity, "family": c.family, "failing_position": at - 1, "sequence_up_to_it": s, "law": law,
-				"legend": "Bk.n = Put(key k, bitmap of <= n bytes); Gk = Get(key k)"})
+				"legend": "Bk.n = Put(key k, bitmap of <= n bytes in array containers); Uk.n = the same in run containers; Gk = Get(key k)"})
 		}
 		r.Eval(len(c.positions))
 		r.Distinct(id)
